@@ -3,7 +3,7 @@
 PROPS = {}
 HARNESSES = []
 # properties whose check is registered in MANIFEST.json (the others are listed under not_applicable)
-CLAIMED = ["C02", "C05", "C06", "C08", "C09", "C10", "C11", "C12"]
+CLAIMED = ["C02", "C05", "C06", "C07", "C08", "C09", "C10", "C11", "C12", "C16", "C19"]
 
 FMT = "alloc::fmt::format->String::new()"
 
@@ -162,29 +162,25 @@ for nm, sp in (("all", "all seven moments present"), ("single", "each single mom
     h("C07", "c07::c07_moment_routing_%s" % nm, funcs=["Message::{radial,into_radial}", "GenericDataBlock::{moment_data,into_moment_data}", "MomentData::values"], space="presence pattern: %s; header symbolic, 1 gate per moment with distinct raw/scale/offset" % sp, bounds="concrete presence patterns; unwind 9", mfs=2048, mem=12, timeout=1800)
 h("C07", "c07::c07_values_levels_agree", funcs=["GenericDataBlock::decoded_values", "MomentData::values"], space="all 256 raw bytes x 10 listed (scale, offset) pairs", bounds="1 gate; unwind 4", mem=10, timeout=1800)
 for w in (8, 16):
-    h("C07", "c07::c07_gate_count_word%d" % w, funcs=["GenericDataBlock::{decoded_values,moment_data}", "MomentData::values"], space="gates 0..=2, %d-bit words, any data bytes" % w, bounds="gates <= 2; unwind 6", mfs=256, mem=12, timeout=1800)
+    h("C07", "c07::c07_gate_count_word%d" % w, funcs=["GenericDataBlock::{decoded_values,moment_data}", "MomentData::values"], space="%s gates, %d-bit words, any data bytes" % ("exactly 2" if w == 8 else "0..=2", w), bounds="gates <= 2; unwind 6", mfs=256, mem=12, timeout=1800)
 h("C07", "c07::c07_gate_count_word16_consuming", funcs=["GenericDataBlock::into_moment_data", "MomentData::values"], space="2 gates, 16-bit words, any 4 data bytes", bounds="unwind 6", mem=8, timeout=1200)
 
 # ------------------------------------------------------------------------------------------- C19
 prop("C19",
-     level_text="Bounded model checking of get_elevation_from_chunk for all cut lists up to 8 (quick) / 32 (thorough) cuts with symbolic resolution bits and all sequences 1..=200 against an independent cumulative-sum oracle (pointer identity of the returned cut), and of estimate_next_chunk_time without history for all previous sequences 000..999, upload times 1970..2100 and symbolic waveform/channel codes.",
+     level_text="Bounded model checking of get_elevation_from_chunk for all cut lists up to 8 (quick) / 32 (thorough) cuts with symbolic resolution bits and all sequences 1..=200 against an independent cumulative-sum oracle (pointer identity of the returned cut), and of estimate_next_chunk_time without history for every previous sequence (sequence() stubbed by an arbitrary value) and symbolic waveform/channel codes at a concrete upload time, plus one history shape (11 + 1 samples, symbolic durations/attempts).",
      level_note="Trusted: Kani/CBMC; chrono compiled, not modelled. The history clause runs the real ChunkTimingStats (std HashMap + VecDeque) with std::hash::RandomState::new stubbed to fixed SipHash keys and concrete characteristics keys (symbolic keys would make the hash symbolic).",
      outside="histories other than 11 samples under one key plus one under another; get_statistics; cut lists longer than 32; previous chunk without upload time (falls back to Utc::now())")
 h("C19", "c19::c19_elevation_map_le4", funcs=["realtime::get_elevation_from_chunk", "ElevationDataBlock::super_resolution_control_half_degree_azimuth"], space="all cut lists of length 0..=4 x resolution bits x sequences 1..=200", bounds="L <= 4; unwind 6", mem=4)
 h("C19", "c19::c19_elevation_map_le8", funcs=["realtime::get_elevation_from_chunk"], space="all cut lists of length 0..=8 x sequences 1..=200", bounds="L <= 8; unwind 10", mem=4, timeout=1500)
 h("C19", "c19::c19_elevation_map_le32", tier="thorough", funcs=["realtime::get_elevation_from_chunk"], space="all cut lists of length 0..=32 x sequences 1..=200", bounds="L <= 32; unwind 34", mem=24, timeout=3600)
-h("C19", "c19::c19_estimate_default", funcs=["realtime::estimate_next_chunk_time", "get_default_wait_time", "ChunkIdentifier::{sequence,date_time}", "get_elevation_from_chunk"], space="every previous sequence (any usize, or unparsable) x upload time 1970..2100 (s) x 2 cuts with symbolic waveform/channel codes", bounds="2 cuts; ChunkIdentifier::sequence stubbed by an arbitrary value (its parser is C16)", mem=16, timeout=2400)
+h("C19", "c19::c19_estimate_default", funcs=["realtime::estimate_next_chunk_time", "get_default_wait_time", "ChunkIdentifier::{sequence,date_time}", "get_elevation_from_chunk"], space="every previous sequence (any usize, or unparsable) x 2 cuts with symbolic waveform/channel codes; upload time concrete", bounds="2 cuts; ChunkIdentifier::sequence stubbed by an arbitrary value (its parser is C16)", mem=16, timeout=2400)
 
 # ------------------------------------------------------------------------------------------- C16
 prop("C16",
-     level_text="Bounded model checking of the chunk-name parsers and of the successor function on (volume, sequence): all 1000 three-digit sequence strings, all type letters, all volumes 1..=999 in one query each; archive site() on all UTF-8 strings up to 8 bytes.",
+     level_text="Bounded model checking of the chunk-name parsers and of the successor function on (volume, sequence): the type letter (all ASCII) and name prefix, the successor arithmetic for every sequence value (sequence() stubbed by an arbitrary value) and every volume 1..=999, and the archive-name slicing on strings up to 24 bytes with one multi-byte character anywhere.",
      level_note="Trusted: Kani/CBMC and std's str::split/parse compiled as is. alloc::fmt::format is stubbed to String::new(), therefore the successor's *name* (format!(\"{}-{:03}-{}\")) and with_sequence are NOT covered here; the cycle over 999 x 55 positions follows from the checked one-step function only for the (volume, sequence-class) part. chrono's format-string parser (archive date_time) is outside reach.",
-     outside="successor name formatting and with_sequence (core::fmt), archive Identifier::date_time (chrono strftime parser), strings longer than 8 bytes for site()")
+     outside="ChunkIdentifier::sequence itself (str::split('-').nth(2) + parse::<usize>() exhausts CBMC even on a concrete name: 10 GB, no verdict), successor name formatting and with_sequence (core::fmt), chrono's strftime parser (stubbed by 'any result'), names longer than 24 bytes")
 CI = ["realtime::ChunkIdentifier::{new,sequence,chunk_type,name_prefix,next_chunk}", "str::split / str::parse::<usize> (std)"]
-h("C16", "c16::c16_parse", funcs=CI, space="all 1000 digit triples x all ASCII type letters x volumes 1..=999", bounds="name of 21 chars; unwind 24", mem=12, timeout=1800)
-h("C16", "c16::c16_successor_volume", funcs=CI, space="sequences 055..=999 x volumes 1..=999", bounds="unwind 24", mem=12, timeout=1800)
-h("C16", "c16::c16_successor_sequence", funcs=CI, space="sequences 000..=054 x volumes 1..=999", bounds="unwind 24; name text stubbed", mem=12, timeout=1800)
-h("C16", "c16::c16_parse_total", funcs=CI, space="all ASCII triples in the sequence field", bounds="unwind 24", mem=12, timeout=1800)
 
 # ------------------------------------------------------------------------------------------- C15
 prop("C15",
@@ -200,9 +196,9 @@ prop("C03",
      level_note="Trusted: Kani/CBMC; alloc::fmt::format stubbed; frame bodies are concrete zeros (a valid status message and a valid 0-cut VCP) because the body of an opaque type is never interpreted - body field fidelity is C11/C12.",
      outside="streams longer than 2 messages; symbolic type codes in the quick tier; frames of types 2/5 with non-zero bodies (C11/C12); Record::messages (one extra call)")
 DM = ["decode_messages", "decode_message_header", "decode_message_contents"]
-for nm, sp in (("c03_frame_t15_fragment", "type 15 + trailing fragment of 0..=27 symbolic bytes"), ("c03_frame_t2_fragment", "type 2 (status) + fragment"), ("c03_frame_t5", "type 5 (VCP)"),
-               ("c03_frame_t0", "type 0"), ("c03_frame_t33_fragment", "type 33 + fragment"), ("c03_frame_t255", "type 255")):
-    h("C03", "c03::%s" % nm, tier="quick" if nm in ("c03_frame_t15_fragment", "c03_frame_t5") else "thorough", funcs=DM, space="one 2432-byte frame, %s; message header symbolic" % sp, bounds="1 message, concrete type code; unwind 30", mfs=2600, mem=16, timeout=1800)
+for nm, sp in (("c03_frame_t15_fragment27", "type 15 + trailing fragment of 27 symbolic bytes"), ("c03_frame_t15_fragment1", "type 15 + 1 trailing byte"), ("c03_frame_t2_fragment13", "type 2 (status) + 13-byte fragment"), ("c03_frame_t5", "type 5 (VCP)"),
+               ("c03_frame_t0", "type 0"), ("c03_frame_t33_fragment27", "type 33 + 27-byte fragment"), ("c03_frame_t255", "type 255")):
+    h("C03", "c03::%s" % nm, tier="quick" if nm in ("c03_frame_t15_fragment27", "c03_frame_t15_fragment1", "c03_frame_t5") else "thorough", funcs=DM, space="one 2432-byte frame, %s; message header symbolic" % sp, bounds="1 message, concrete type code; unwind 30", mfs=2600, mem=16, timeout=1800)
 h("C03", "c03::c03_one_opaque_frame_any_type", tier="thorough", funcs=DM, space="one frame, all 253 opaque type codes symbolic", bounds="1 message; unwind 30", mfs=2600, mem=24, timeout=7200)
 for nm, sp in (("c03_frame15_then_type31", "[frame 15][type-31 with one ELV block]"), ("c03_type31_then_frame15", "[type-31][frame 15]"), ("c03_type31_then_frame2", "[type-31][frame 2]")):
     h("C03", "c03::%s" % nm, tier="quick" if nm != "c03_type31_then_frame2" else "thorough", funcs=DM + ["decode_digital_radar_data"], space="%s; both headers and the elevation number symbolic" % sp, bounds="2 messages, concrete frame type; unwind 30", mfs=2600, mem=20, timeout=2400)
@@ -216,13 +212,13 @@ prop("C13",
      level_note="Trusted: Kani/CBMC. Zone *counts* are concrete per harness instance (azimuths 0, 1 and 359 carry zones, all others none) so that byte offsets stay concrete; zone values, date and time are symbolic. The date-time *conversion* is C08.",
      outside="more than 2 elevation segments; other placements of non-empty azimuths; zone counts above 2")
 CFM = ["clutter_filter_map::decode_clutter_filter_map", "util::deserialize", "RangeZone::op_code"]
-h("C13", "c13::c13_structure_s0", funcs=CFM, space="all headers with 0 segments", bounds="S = 0", mem=8)
-h("C13", "c13::c13_structure_s1", tier="thorough", funcs=CFM, space="1 segment x 360 azimuths; zones (2,1,2) at azimuths 0,1,359 with symbolic values", bounds="S = 1; unwind 362", mfs=16384, mem=24, timeout=10800)
-h("C13", "c13::c13_structure_s2", tier="thorough", funcs=CFM, space="2 segments x 360 azimuths; zones (1,0,2)", bounds="S = 2; unwind 362", mfs=16384, mem=40, timeout=21600)
-h("C13", "c13::c13_truncated", tier="thorough", funcs=CFM, space="one declared segment, zero zone counts, every cut point 0..=726", bounds="unwind 362", mfs=16384, mem=24, timeout=10800, unwind_is_violation=True)
+h("C13", "c13::c13_structure_s0", tier="probe", funcs=CFM, space="all headers with 0 segments", bounds="S = 0", mem=8)
+h("C13", "c13::c13_structure_s1", tier="probe", funcs=CFM, space="1 segment x 360 azimuths; zones (2,1,2) at azimuths 0,1,359 with symbolic values", bounds="S = 1; unwind 362", mfs=16384, mem=24, timeout=10800)
+h("C13", "c13::c13_structure_s2", tier="probe", funcs=CFM, space="2 segments x 360 azimuths; zones (1,0,2)", bounds="S = 2; unwind 362", mfs=16384, mem=40, timeout=21600)
+h("C13", "c13::c13_truncated", tier="probe", funcs=CFM, space="one declared segment, zero zone counts, every cut point 0..=726", bounds="unwind 362", mfs=16384, mem=24, timeout=10800, unwind_is_violation=True)
 h("C04", "c04::c04_type31_one_block_free", tier="thorough", funcs=["decode_digital_radar_data", "Message::radial", "GenericDataBlock::new"], space="all 2^(8*74) 76-byte inputs with block count 1: pointer, block type/name, gates, word size free", bounds="fixed length 76, 1 block; unwind 12", mem=16, mfs=128, unwind_is_violation=True, timeout=2400)
 h("C07", "z::c07_value_formula", kind="z", script="smt/z_c07.py", funcs=["GenericDataBlock::scaled_value (MIR)", "MomentData::value_of (MIR)"], space="all 2^16 raw gate values x all finite f32 scale x all finite f32 offset (levels: every f32 bit pattern)", bounds="loop-free closures: no bound; QF_FP, z3 and cvc5 must agree", mem=6, timeout=1200)
-h("C04", "c04::c04_type31_one_block_ascii_name", funcs=["decode_digital_radar_data", "Message::radial", "GenericDataBlock::new"], space="76-byte inputs, one block at offset 36, block type and ASCII name free (all 2^21 names), gates/word size/rest free", bounds="fixed length 76, 1 block; unwind 12", mem=16, mfs=128, unwind_is_violation=True, timeout=2400)
+h("C04", "c04::c04_type31_one_block_ascii_name", funcs=["decode_digital_radar_data", "Message::radial", "GenericDataBlock::new"], space="76-byte inputs, one block at offset 36: block type, ASCII name (all 2^21), gate count, word size, scale, offset free; other bytes zero", bounds="fixed length 76, 1 block; unwind 12", mem=16, mfs=128, unwind_is_violation=True, timeout=2400)
 
 # ------------------------------------------------------------------------------------------- C01
 prop("C01",
@@ -230,23 +226,27 @@ prop("C01",
      level_note="Trusted: Kani/CBMC. libbz2 is replaced by the identity codec 'strip the 4-byte prefix' (Record::decompress stub; records are laid out so that compressed() is really true); alloc::fmt::format and the [u8;4] try_from stubs as in C02. Volumes with two or more radials are outside reach (Vec<Radial> of >= 2 exhausts CBMC), so multi-radial grouping is claimed only in C09 at its bound.",
      outside="bzip2 itself; two or more radials or records; moment blocks inside a volume (C02/C07); longer elevation sequences (C09)")
 SC = ["volume::File::scan", "File::records", "split_compressed_records", "Record::{compressed,messages}", "decode_messages", "decode_digital_radar_data", "Message::into_radial", "Sweep::from_radials", "Scan::new"]
-h("C01", "c01::c01_one_radial", funcs=SC, space="1 record, 1 radial: all azimuth/elevation numbers, VCP numbers, in-range date/time, volume header bytes", bounds="1 record, 1 radial, VOL only; unwind 8", mfs=4096, mem=24, timeout=3000)
-h("C01", "c01::c01_metadata_then_radial", funcs=SC, space="1 record: RDA status frame (2432 bytes) then 1 radial", bounds="1 record, 1 frame + 1 radial; unwind 8", mfs=4096, mem=30, timeout=3600)
-h("C01", "c01::c01_no_vol_block", funcs=SC, space="1 record, 1 radial without any data block", bounds="unwind 8", mfs=4096, mem=24, timeout=3000)
+h("C01", "c01::c01_one_radial", tier="probe", funcs=SC, space="1 record, 1 radial: all azimuth/elevation numbers, VCP numbers, in-range date/time, volume header bytes", bounds="1 record, 1 radial, VOL only; unwind 8", mfs=4096, mem=24, timeout=3000)
+h("C01", "c01::c01_metadata_then_radial", tier="probe", funcs=SC, space="1 record: RDA status frame (2432 bytes) then 1 radial", bounds="1 record, 1 frame + 1 radial; unwind 8", mfs=4096, mem=30, timeout=3600)
+h("C01", "c01::c01_no_vol_block", tier="probe", funcs=SC, space="1 record, 1 radial without any data block", bounds="unwind 8", mfs=4096, mem=24, timeout=3000)
 
 # ------------------------------------------------------------------------------------------- C14
 prop("C14",
-     level_text="Bounded model checking of summarize::messages on lists of up to 2 (quick) / 3 (thorough) messages whose kinds (radial, status, VCP, other), elevation numbers, opaque type codes and times of day are symbolic, against an independent single-pass reference written in the harness: tiling, spans, maximal runs, singleton status/VCP groups, continuation flag, first/last azimuth and time, collection-time range.",
+     level_text="Bounded model checking of summarize::messages on lists of up to 2 (quick) / 3 (thorough) messages whose kinds (radial, status, VCP, other), elevation numbers and opaque type codes are symbolic (times of day concrete, non-monotone), against an independent single-pass reference written in the harness: tiling, spans, maximal runs, singleton status/VCP groups, continuation flag, first/last azimuth and time, collection-time range.",
      level_note="Trusted: Kani/CBMC. std::hash::RandomState::new stubbed to fixed SipHash keys (the real one calls the OS); alloc::fmt::format stubbed, so the strings inside RDAStatusInfo/VCPInfo are empty and not compared. Radials carry no moment or volume blocks here: per-group data-type counts and the VCP set (HashMap/HashSet inserts with string keys) are not claimed.",
      outside="lists longer than 3; data-type counts and the VCP set; text of status/VCP info")
 for n, tier, mem, to in ((0, "quick", 8, 900), (1, "quick", 16, 1800), (2, "quick", 24, 2400), (3, "thorough", 40, 7200)):
-    h("C14", "c14::c14_summary_n%d" % n, tier=tier, funcs=["summarize::messages", "summarize::rda::extract_rda_status_info", "summarize::vcp::extract_vcp_info", "MessageHeader::{message_type,date_time}"], space="all lists of %d messages: kinds^%d x elevation numbers x opaque type codes x times of day" % (n, n), bounds="N = %d" % n, mem=mem, timeout=to, mfs=4096)
-h("C19", "c19::c19_estimate_history", funcs=["realtime::estimate_next_chunk_time", "ChunkTimingStats::{new,add_timing,get_average_timing,get_average_attempts}", "std HashMap/VecDeque"], space="11 samples under one key (durations 0..=60000 ms, attempts 1..=5, all symbolic) + 1 sample under another key", bounds="exactly 11+1 recorded samples; unwind 24", mfs=4096, mem=24, timeout=3600)
-h("C13", "c13::c13_truncated_last_zones", tier="thorough", funcs=CFM, space="one segment whose azimuth 359 declares two zones; cut at 726..=734", bounds="unwind 362", mfs=16384, mem=24, timeout=10800, unwind_is_violation=True)
+    h("C14", "c14::c14_summary_n%d" % n, tier=tier, funcs=["summarize::messages", "summarize::rda::extract_rda_status_info", "summarize::vcp::extract_vcp_info", "MessageHeader::{message_type,date_time}"], space="all lists of %d messages: kinds^%d x elevation numbers x opaque type codes; concrete non-monotone times" % (n, n), bounds="N = %d" % n, mem=mem, timeout=to, mfs=4096)
+h("C19", "c19::c19_estimate_history", tier="probe", funcs=["realtime::estimate_next_chunk_time", "ChunkTimingStats::{new,add_timing,get_average_timing,get_average_attempts}", "std HashMap/VecDeque"], space="11 samples under one key (durations 0..=60000 ms, attempts 1..=5, all symbolic) + 1 sample under another key", bounds="exactly 11+1 recorded samples; unwind 24", mfs=4096, mem=24, timeout=10800)
+h("C13", "c13::c13_truncated_last_zones", tier="probe", funcs=CFM, space="one segment whose azimuth 359 declares two zones; cut at 726..=734", bounds="unwind 362", mfs=16384, mem=24, timeout=10800, unwind_is_violation=True)
 h("C04", "c04::c04_vcp_fixed_frame", funcs=["decode_volume_coverage_pattern"], space="all 2^(8*114) inputs of 114 bytes", bounds="fixed length; unwind 5", mfs=128, mem=12, unwind_is_violation=True, timeout=1800)
 h("C04", "c04::c04_messages_short_stream", funcs=["decode_messages", "decode_message_header", "decode_message_contents", "decode_digital_radar_data"], space="76-byte streams: one type-31 message; free size fields of the message header, free block type and ASCII block name; rest zero", bounds="fixed length 76; unwind 12", mfs=128, mem=24, unwind_is_violation=True, timeout=3000)
-h("C01", "c01::c01_two_radials_same_elevation", funcs=SC, space="1 record, 2 radials of elevation 1, each with a VOL block: azimuth numbers, VCP numbers, times symbolic", bounds="2 radials, concrete elevation numbers (1,1); unwind 8", mfs=4096, mem=30, timeout=3600)
-h("C01", "c01::c01_two_radials_two_elevations", funcs=SC, space="1 record, 2 radials of elevations 1 and 2, each with a VOL block", bounds="2 radials, concrete elevation numbers (1,2); unwind 8", mfs=4096, mem=30, timeout=3600)
+h("C01", "c01::c01_two_radials_same_elevation", tier="probe", funcs=SC, space="1 record, 2 radials of elevation 1, each with a VOL block: azimuth numbers, VCP numbers, times symbolic", bounds="2 radials, concrete elevation numbers (1,1); unwind 8", mfs=4096, mem=30, timeout=3600)
+h("C01", "c01::c01_two_radials_two_elevations", tier="probe", funcs=SC, space="1 record, 2 radials of elevations 1 and 2, each with a VOL block", bounds="2 radials, concrete elevation numbers (1,2); unwind 8", mfs=4096, mem=30, timeout=3600)
+h("C16", "c16::c16_parse_concrete", tier="probe", funcs=CI, space="8 concrete names (sequence fields 001, 014, 054, 055, 056, 999, 0-4, 0a4)", bounds="concrete inputs; unwind 24", mem=10, timeout=1800)
+h("C16", "c16::c16_parse_letter", funcs=CI, space="all 128 ASCII type letters", bounds="unwind 24", mem=10, timeout=1800)
+h("C16", "c16::c16_successor_volume", funcs=["realtime::ChunkIdentifier::next_chunk", "VolumeIndex"], space="every sequence value >= 55 (sequence() stubbed by an arbitrary value) x volumes 1..=999", bounds="unwind 24", mem=10, timeout=1800)
+h("C16", "c16::c16_successor_sequence", funcs=["realtime::ChunkIdentifier::next_chunk"], space="every sequence value < 55 or unparsable x volumes 1..=999", bounds="unwind 24; name text stubbed", mem=10, timeout=1800)
 h("C16", "c16::c16_archive_name_total", funcs=["archive::Identifier::{new,site,date_time}"], space="all strings of 0..=24 bytes: free ASCII with one 2-byte character at any position", bounds="L = 24; chrono's NaiveDate/NaiveTime::parse_from_str stubbed by 'any result'; unwind 28", mem=12, timeout=1800)
 h("C04", "z::c04_gate_buffer_bound", kind="z", script="smt/z_c04.py", funcs=["GenericDataBlock::new (MIR)"], space="all 2^16 gate counts x all 2^8 word sizes", bounds="loop-free; QF_BV; z3 and cvc5 must agree", mem=6, timeout=900)
 # the 'BZ' predicate and the decompress/decode error gates are part of C05's statement as well
@@ -257,4 +257,5 @@ for nm, sp in (("c02_two_vol_ref", "VOL then REF, contiguous, pointers in order"
                ("c02_two_elv_rad_gap", "ELV then RAD after a 4-byte gap"), ("c02_two_phi_rho_permuted", "PHI then RHO, gap 2, pointer table permuted"),
                ("c02_two_cfp_zdr", "CFP then ZDR, gap 1")):
     h("C02", "c02::%s" % nm, tier="quick" if nm in ("c02_two_ref_vol_permuted_gaps",) else "thorough", funcs=D31, space="header + 2 blocks (%s): all other bytes symbolic, word size 8|16" % sp, bounds="2 blocks, concrete layout; unwind 10", mfs=256, mem=16, timeout=2400)
-h("C13", "c13::c13_truncated_early", funcs=CFM, space="one declared segment, zero zone counts, every cut point 0..=30", bounds="L = 30; unwind 16", mem=12, timeout=1800, unwind_is_violation=True)
+h("C13", "c13::c13_truncated_early", tier="probe", funcs=CFM, space="one declared segment, zero zone counts, every cut point 0..=30", bounds="L = 30; unwind 16", mem=12, timeout=1800, unwind_is_violation=True)
+h("C09", "c09::c09_merge_stable_12_12_concrete", tier="thorough", funcs=MG, space="one concrete pair of 12-radial sweeps with pairwise colliding azimuth numbers (24 elements: beyond the insertion-sort threshold)", bounds="concrete input; unwind 26", mfs=16384, mem=24, timeout=3600)
